@@ -135,8 +135,13 @@ int main(int argc, char **argv)
 		else if (c == "find" && (t.size() == 3 || t.size() == 5))
 		{
 			const size_t at = strtoul(t[1].c_str(), 0, 10);
-			if (!root || at >= g_pre.size()) { pj::Ev("Error").s("what", "no such element").emit(); continue; }
 			const std::string path = pj::unhex(t[2]);
+			if (!root || at >= g_pre.size())     // the parsed tree has no such element (it is not the expected tree)
+			{
+				pj::Ev("Find").i("at", at).raw("path", codes(path)).b("filt", t.size() == 5).raw("an", "[]").raw("av", "[]")
+					.raw("hits", "[]").i("first", -1).i("ret", -1).b("noel", true).emit();
+				continue;
+			}
 			std::string an, av;
 			const bool filt = t.size() == 5;
 			if (filt) { an = pj::unhex(t[3]); av = pj::unhex(t[4]); }
@@ -150,7 +155,7 @@ int main(int argc, char **argv)
 			std::vector<long> hits;
 			for (const XmlElement *p : eset) hits.push_back(id_of(p));
 			pj::Ev("Find").i("at", at).raw("path", codes(path)).b("filt", filt).raw("an", codes(an)).raw("av", codes(av))
-				.ints("hits", hits).i("first", f ? id_of(f) : -1).i("ret", ret).emit();
+				.ints("hits", hits).i("first", f ? id_of(f) : -1).i("ret", ret).b("noel", false).emit();
 		}
 		else if (c == "quit") break;
 		else pj::Ev("Error").s("what", "bad command " + line.substr(0, 60)).emit();
